@@ -183,6 +183,20 @@ def run_op(op, env):
             if before != after:
                 return ('MUTATED', repr(before)[:200], repr(after)[:200])
             return res
+        if kind in ('spair', 'ssingle'):
+            # two parses in a row with two semantics objects the caller does not keep (the second is very likely to get the address of
+            # the first).  The reference is two independent single calls.
+            _, g, text, sems = op[:4]
+            m = tatsu.compile(GRAMS[g], name='SP')
+            out = []
+            for sname in (sems if kind == 'spair' else sems[:1]):
+                sem = SEMS[sname]()
+                try:
+                    out.append(('ok', canon(m.parse(text, semantics=sem))))
+                except ParseException as e:
+                    out.append(('fail', type(e).__name__))
+                del sem
+            return ('ok', *out)
         if kind in ('bpair', 'bsingle'):
             # two compile() calls in a row that differ only in a BuilderConfig the caller does not keep (the second object is very
             # likely to get the address of the first), then a parse with each model.  The reference is two independent single calls.
@@ -370,6 +384,12 @@ def run_history(history):
             result = msg[1]
             break
         ops = msg[1]
+        if ops[-1][0] == 'spair':
+            _, g, text, sems = ops[-1][:4]
+            a = eval_fresh([('ssingle', g, text, sems[:1])])
+            b = eval_fresh([('ssingle', g, text, sems[1:])])
+            _send(rep_w, ('ok', a[1], b[1]) if a and b and a[0] == b[0] == 'ok' else ('?', a, b))
+            continue
         if ops[-1][0] == 'bpair':
             # the pair is judged against two independent fresh processes, one per compile() call
             _, g, name, first, text = ops[-1][:5]
@@ -434,6 +454,9 @@ def gen_history(rnd):
             g = rnd.choice(list(GRAMS))
             op = ('gen', g, rnd.choice(['G1', 'G2']), var)
             parsers[var] = g
+        elif c < 0.815:
+            g = rnd.choice(list(GRAMS))
+            op = ('spair', g, pick_text(rnd, g), rnd.sample(['A', 'B', 'S2', 'S3', 'F1', 'D1'], 2))
         elif c < 0.83:
             g = rnd.choice(['g2', 'g6', 'g9', 'g2'])
             op = ('bshared', g, rnd.choice(OWN_TEXTS[g]), rnd.random() < 0.5)
